@@ -120,6 +120,26 @@ def build_gen(depth, record, with_cm):
     return top
 
 
+def own_frame(o):
+    """the frame a coroutine / generator / async generator object owns (ground truth from the object)"""
+    for attr in ("cr_frame", "gi_frame", "ag_frame"):
+        if hasattr(o, attr):
+            return getattr(o, attr)
+    return None
+
+
+def own_frame_contract(st):
+    """R4: a non-None origin is the object whose own frame this frame is -> None | message"""
+    for i, fr in enumerate(st.frames):
+        o = fr.origin
+        if o is not None and own_frame(o) is not fr.pyframe:
+            of = own_frame(o)
+            return ("frame %d (%s, line %d) has origin %s whose own frame is %s"
+                    % (i, fr.pyframe.f_code.co_name, fr.lineno, type(o).__name__,
+                       "line %d of %s" % (of.f_lineno, of.f_code.co_name) if of is not None else "none"))
+    return None
+
+
 def check_root(x, expect, viol, label, stats):
     """expect: list of (object, frame attr) that must appear, in order, as frames with that origin
     (None = no ground truth for this root)"""
@@ -148,6 +168,9 @@ def check_root(x, expect, viol, label, stats):
         m = origin_contract(st, with_contexts=wc)
         if m:
             msgs.append("R2 " + m)
+        m = own_frame_contract(st)
+        if m:
+            msgs.append("R4 " + m)
         m = outermost_contract(x, st, with_contexts=wc)
         if m:
             msgs.append("R3 " + m)
@@ -223,6 +246,8 @@ def run(tier, seed):
         next(box[0])
         box[0].close()
     running_gen()
+    recursive_running(viol, stats, 3 if quick else 4)
+    same_code_foreign_frame(viol, stats)
     # scenarios of the C05 leg: thread, greenlet, custom items, running stack
     for label, scen in R.SCENARIOS:
         try:
@@ -253,6 +278,174 @@ def run(tier, seed):
     else:
         viol.append({"what": "[real:frameless] extract_outermost returned although there is no frame", "input": {}})
     return dict(evaluations=stats["roots"], violations=viol, info=stats)
+
+
+def recursive_running(viol, stats, maxd):
+    """recursive generator / coroutine / async-generator chains (the same function at every level, and
+    mutually recursive pairs), extracted from inside at every level while the chain is RUNNING: the inner
+    instances are then reached as plain f_back callees of the outer one, with the outer object still
+    carried as origin candidate, and they execute the same code object."""
+    stats.setdefault("running_probes", 0)
+
+    def probe(objs, label):
+        # called from inside the chain: extract every object created so far
+        for i, o in enumerate(objs):
+            stats["running_probes"] += 1
+            check_root(o, None, viol, "%s:level%d-of-%d" % (label, i, len(objs)), stats)
+            import stackscope
+            st = stackscope.extract(o)
+            if not st.frames or st.frames[0].pyframe is not own_frame(o) or st.frames[0].origin is not o:
+                viol.append({"what": "[real:%s] extracting running object #%d: first frame is not its own frame with itself as origin"
+                             % (label, i), "input": {"root": label}})
+
+    for depth in range(2, maxd + 1):
+        # --- generators, self recursion and a mutually recursive pair
+        objs = []
+
+        def walk(n):
+            probe(objs, "rec-gen:%d" % depth)
+            if n == 0:
+                yield "leaf"
+            else:
+                c = walk(n - 1)
+                objs.append(c)
+                yield from c
+        root = walk(depth)
+        objs.append(root)
+        next(root)
+        check_root(root, [(o, "gi_frame") for o in objs], viol, "rec-gen:%d:suspended" % depth, stats)
+        root.close()
+
+        objs = []
+
+        def ping(n):
+            probe(objs, "mutual-gen:%d" % depth)
+            if n == 0:
+                yield "leaf"
+            else:
+                c = pong(n - 1)
+                objs.append(c)
+                yield from c
+
+        def pong(n):
+            probe(objs, "mutual-gen:%d" % depth)
+            if n == 0:
+                yield "leaf"
+            else:
+                c = ping(n - 1)
+                objs.append(c)
+                yield from c
+        root = ping(depth)
+        objs.append(root)
+        next(root)
+        root.close()
+
+        # --- coroutines
+        objs = []
+
+        async def descend(n):
+            probe(objs, "rec-coro:%d" % depth)
+            if n:
+                c = descend(n - 1)
+                objs.append(c)
+                await c
+            else:
+                await Park2()
+        root = descend(depth)
+        objs.append(root)
+        root.send(None)
+        check_root(root, [(o, "cr_frame") for o in objs], viol, "rec-coro:%d:suspended" % depth, stats)
+        root.close()
+
+        objs = []
+
+        async def aping(n):
+            probe(objs, "mutual-coro:%d" % depth)
+            if n:
+                c = apong(n - 1)
+                objs.append(c)
+                await c
+
+        async def apong(n):
+            probe(objs, "mutual-coro:%d" % depth)
+            if n:
+                c = aping(n - 1)
+                objs.append(c)
+                await c
+        root = aping(depth)
+        objs.append(root)
+        try:
+            root.send(None)
+        except StopIteration:
+            pass
+
+        # --- async generators
+        objs = []
+
+        async def awalk(n):
+            probe(objs, "rec-agen:%d" % depth)
+            if n == 0:
+                yield "leaf"
+            else:
+                a = awalk(n - 1)
+                objs.append(a)
+                async for x in a:
+                    yield x
+        root = awalk(depth)
+        objs.append(root)
+        try:
+            root.asend(None).send(None)
+        except StopIteration:
+            pass
+        check_root(root, None, viol, "rec-agen:%d:suspended" % depth, stats)
+        try:
+            root.aclose().send(None)
+        except (StopIteration, StopAsyncIteration):
+            pass
+
+
+class Delegate:
+    """a non-generator iterator a generator can `yield from`; it unwraps to a raw frame"""
+    def __init__(self, frame):
+        self.frame = frame
+
+    def __iter__(self):
+        return self
+
+    def __next__(self):
+        return 1
+
+
+def same_code_foreign_frame(viol, stats):
+    """a suspended generator A delegating (through a plain iterator object) to the raw frame of ANOTHER
+    suspended instance B of the same generator function: that frame is reached with A as origin candidate and
+    runs A's code object, but it is not A's own frame, so its origin must not be A"""
+    from stackscope import unwrap_stackitem
+
+    if not getattr(Delegate, "_registered", False):
+        @unwrap_stackitem.register(Delegate)
+        def _(d):
+            return d.frame
+        Delegate._registered = True
+
+    def twin(target):
+        if target is None:
+            yield 0
+        else:
+            yield from target
+    b = twin(None)
+    next(b)
+    a = twin(Delegate(b.gi_frame))
+    next(a)
+    try:
+        import stackscope
+        st = stackscope.extract(a)
+        if [f.pyframe for f in st.frames] != [a.gi_frame, b.gi_frame]:
+            viol.append({"what": "[real:same-code-foreign-frame] frames are not [A's frame, B's frame]", "input": {"root": "twin"}})
+        check_root(a, None, viol, "same-code-foreign-frame", stats)
+    finally:
+        a.close()
+        b.close()
 
 
 def _await_order(root, record):
